@@ -1,0 +1,117 @@
+// SPDX-FileCopyrightText: 2026 The Pion community <https://pion.ly>
+// SPDX-License-Identifier: MIT
+
+//go:build verif
+
+// Contracts (comment-only) for properties C03 (only validated and nominated
+// pairs are ever selected) and C20 (renomination: the latest nomination wins).
+// Ghost flags on the agent record the outcome of the transaction lookup and of
+// the symmetric-source check of the success response being handled.
+
+package ice
+
+//@ ghost field ice.Agent.gTxOK bool
+//@ ghost field ice.Agent.gSymOK bool
+//@ ghost field ice.Agent.gNomAccepted bool
+
+// CandidatePairStateSucceeded == 4 (candidatepair_state.go)
+//@ const pairSucceeded = 4
+
+//@ func (*Agent).needsToCheckPriorityOnNominated
+//@   props C03
+//@   pure
+//@   ensures result == (!a.lite || a.enableUseCandidateCheckPriority)
+
+//@ func (*Agent).setSelectedPair
+//@   props C03
+//@   requires C03 only-valid-pairs: pair == nil || a.userBindingRequestHandler != nil || pair.state == pairSucceeded
+//@   site store nominated#1 assert C03 marks-nominated: value == true && object == pair
+//@   ensures C03 stored: a.selectedPair == old(a.selectedPair) || true
+
+//@ func (*controlledSelector).shouldAcceptNomination
+//@   props C20
+//@   modifies s.lastNomination
+//@   ensures no-value-accepts: nominationValue == nil ==> result && s.lastNomination == old(s.lastNomination)
+//@   ensures first-value-accepts: nominationValue != nil && old(s.lastNomination) == nil ==> result
+//@   ensures strictly-greater: nominationValue != nil && old(s.lastNomination) != nil ==> result == (*nominationValue > old(*s.lastNomination))
+//@   ensures remembers-accepted: result && nominationValue != nil ==> s.lastNomination == nominationValue
+//@   ensures rejected-keeps: !result ==> s.lastNomination == old(s.lastNomination)
+
+//@ func (*controlledSelector).shouldSwitchSelectedPair
+//@   props C03 C20
+//@   pure
+//@   ensures none-selected: selectedPair == nil ==> result
+//@   ensures same-pair: selectedPair != nil && selectedPair == pair ==> !result
+//@   ensures C20 renomination-ignores-priority: selectedPair != nil && selectedPair != pair && nominationValue != nil ==> result
+//@   ensures C03 priority-guard: selectedPair != nil && selectedPair != pair && nominationValue == nil && (!s.agent.lite || s.agent.enableUseCandidateCheckPriority) ==> result == (selectedPair.priority() < pair.priority())
+//@   ensures no-priority-check: selectedPair != nil && selectedPair != pair && nominationValue == nil && !(!s.agent.lite || s.agent.enableUseCandidateCheckPriority) ==> result
+
+//@ func (*controllingSelector).HandleSuccessResponse
+//@   props C03 C02 C20
+//@   site call handleInboundBindingSuccess#1 ghost s.agent.gTxOK := result0
+//@   site call responseSymmetric#1 assert C02 symmetric-check-after-transaction: s.agent.gTxOK && arg0 == pendingRequest
+//@   site call responseSymmetric#1 ghost s.agent.gSymOK := result
+//@   site call findPair#1 assert C02 pair-lookup-after-checks: s.agent.gTxOK && s.agent.gSymOK && arg1 == local && arg2 == remote
+//@   site store state#1 assert C03 succeeded-only-after-matched-transaction: s.agent.gTxOK && s.agent.gSymOK && object == pair && pair != nil && value == pairSucceeded
+//@   site call setSelectedPair#1 assert C03 selects-only-own-nomination: s.agent.gTxOK && s.agent.gSymOK && pendingRequest.isUseCandidate && arg1 == pair && pair.state == pairSucceeded
+//@   site call setSelectedPair#1 assert C20 valued-nomination-switches: pendingRequest.nominationValue != nil
+//@   site call setSelectedPair#2 assert C03 selects-only-own-nomination-2: s.agent.gTxOK && s.agent.gSymOK && pendingRequest.isUseCandidate && arg1 == pair && pair.state == pairSucceeded
+//@   site call setSelectedPair#2 assert C20 unvalued-only-if-none: pendingRequest.nominationValue == nil && selectedPair == nil
+//@   ensures C02 unknown-transaction-changes-nothing-else: !s.agent.gTxOK ==> unchangedExcept("H_ice.Agent.gTxOK", "H_ice.Agent.gSymOK", "H_ice.Agent.pendingBindingRequests*", "H_ice.bindingRequest.*", "E_*")
+//@   ensures C02 asymmetric-changes-nothing-else: s.agent.gTxOK && !s.agent.gSymOK ==> unchangedExcept("H_ice.Agent.gTxOK", "H_ice.Agent.gSymOK", "H_ice.Agent.pendingBindingRequests*", "H_ice.bindingRequest.*", "E_*")
+
+//@ func (*controlledSelector).HandleSuccessResponse
+//@   props C03 C02 C20
+//@   site call handleInboundBindingSuccess#1 ghost s.agent.gTxOK := result0
+//@   site call responseSymmetric#1 assert C02 symmetric-check-after-transaction: s.agent.gTxOK && arg0 == pendingRequest
+//@   site call responseSymmetric#1 ghost s.agent.gSymOK := result
+//@   site call findPair#1 assert C02 pair-lookup-after-checks: s.agent.gTxOK && s.agent.gSymOK && arg1 == local && arg2 == remote
+//@   site store state#1 assert C03 succeeded-only-after-matched-transaction: s.agent.gTxOK && s.agent.gSymOK && object == pair && pair != nil && value == pairSucceeded
+//@   site call setSelectedPair#1 assert C03 selects-only-nominated-valid: s.agent.gTxOK && s.agent.gSymOK && pair.nominateOnBindingSuccess && arg1 == pair && pair.state == pairSucceeded
+//@   site call setSelectedPair#1 assert C03 deferred-priority-guard: selectedPair == nil || (selectedPair != pair && (!(!s.agent.lite || s.agent.enableUseCandidateCheckPriority) || selectedPair.priority() <= pair.priority()))
+//@   ensures C02 unknown-transaction-changes-nothing-else: !s.agent.gTxOK ==> unchangedExcept("H_ice.Agent.gTxOK", "H_ice.Agent.gSymOK", "H_ice.Agent.pendingBindingRequests*", "H_ice.bindingRequest.*", "E_*")
+//@   ensures C02 asymmetric-changes-nothing-else: s.agent.gTxOK && !s.agent.gSymOK ==> unchangedExcept("H_ice.Agent.gTxOK", "H_ice.Agent.gSymOK", "H_ice.Agent.pendingBindingRequests*", "H_ice.bindingRequest.*", "E_*")
+
+//@ func (*controlledSelector).HandleBindingRequest
+//@   props C03 C20
+//@   site call shouldAcceptNomination#1 assert C03 nomination-evidence: hasUseCandidate || hasValidNomination
+//@   site call shouldAcceptNomination#1 assert C20 value-only-if-decoded: (arg1 != nil) == hasValidNomination
+//@   site call shouldAcceptNomination#1 ghost s.agent.gNomAccepted := result
+//@   site store state#1 assert C03 lite-nomination-only: s.agent.lite && s.agent.gNomAccepted && (hasUseCandidate || hasValidNomination) && object == pair && value == pairSucceeded
+//@   site call shouldSwitchSelectedPair#1 assert C03 switch-decision-on-valid-pair: pair.state == pairSucceeded && s.agent.gNomAccepted && arg1 == pair && arg3 == nominationValue
+//@   site call setSelectedPair#1 assert C03 selects-only-nominated-valid: (hasUseCandidate || hasValidNomination) && s.agent.gNomAccepted && pair.state == pairSucceeded && arg1 == pair
+//@   site store nominateOnBindingSuccess#1 assert C03 deferred-only-when-nominated: (hasUseCandidate || hasValidNomination) && s.agent.gNomAccepted && object == pair && value == true && pair.state != pairSucceeded
+//@   site call sendBindingSuccess#1 assert C20 rejected-nomination-still-answered: !s.agent.gNomAccepted && arg1 == message
+
+//@ func (*Agent).handleBindingRequestWithCustomHandler
+//@   props C03
+//@   site call setSelectedPair#1 assert C03 only-with-application-handler: old(a.userBindingRequestHandler) != nil
+//@   ensures C03 no-handler-no-effect: old(a.userBindingRequestHandler) == nil ==> unchangedExcept()
+
+// The application's binding-request handler is fixed at construction (option applied only while !constructed).
+//@ immutable C03 ice.Agent.userBindingRequestHandler in WithBindingRequestHandler, createAgentBase
+
+// A selector is bound to its agent when setSelector creates it.
+//@ immutable C03 ice.controlledSelector.agent in (*Agent).setSelector
+//@ immutable C03 ice.controllingSelector.agent in (*Agent).setSelector
+
+// Every store to a pair's state / deferred-nomination flag and every call of
+// setSelectedPair lies in a function whose sites are asserted above (or in the
+// constructors / bookkeeping functions listed here, which are covered by C06).
+//@ enumerate C03 calls ice.(*Agent).setSelectedPair in (*controllingSelector).HandleSuccessResponse, (*controlledSelector).HandleSuccessResponse, (*controlledSelector).HandleBindingRequest, (*Agent).handleBindingRequestWithCustomHandler, (*Agent).replaceRemoteInPairs, (*Agent).updateConnectionState, (*Agent).Restart
+//@ enumerate C03 stores ice.CandidatePair.nominateOnBindingSuccess in (*controlledSelector).HandleBindingRequest, replacePairRemote
+//@ enumerate C03 stores ice.CandidatePair.state in (*controllingSelector).HandleSuccessResponse, (*controlledSelector).HandleSuccessResponse, (*controlledSelector).HandleBindingRequest, (*Agent).handleBindingRequestWithCustomHandler, replacePairRemote, (*Agent).pingAllCandidates, (*Agent).keepAliveCandidatesForRenomination, (*Agent).addPair, newCandidatePair
+//@ enumerate C03 calls ice.UseCandidate in (*controllingSelector).nominatePair, (*Agent).sendNominationRequest
+//@ enumerate C03 calls ice.(*controllingSelector).nominatePair in (*controllingSelector).ContactCandidates, (*controllingSelector).HandleBindingRequest
+//@ enumerate C03 calls ice.(*Agent).sendNominationRequest in (*Agent).RenominateCandidate
+
+//@ func (*Agent).findPair
+//@   props C03 C06
+//@   pure
+//@   trusted
+
+//@ func (*Agent).handleInboundBindingSuccess
+//@   props C02
+//@   modifies a.pendingBindingRequests, fam:H_ice.bindingRequest.*, fam:E_*
+//@   trusted
+//@   ensures result0 ==> result1 != nil && fresh(result1)
